@@ -6,6 +6,7 @@
 mod util;
 mod isolate;
 mod c01;
+mod c02;
 mod c03;
 mod c08;
 
@@ -21,6 +22,7 @@ fn main() {
         "c01-replay" => c01::replay(),
         "c01-loop" => c01::drive_loop(rest),
         "c01-pairs" => c01::pairs(rest),
+        "c02-run" => c02::run(rest),
         "c03-tok" => c03::tok(rest),
         "c03-gen" => c03::corpus(rest),
         "c03-prod" => c03::prod(rest),
